@@ -161,6 +161,9 @@ pub enum Notice {
 	NoProgress { tid: Tid, cycle_len: usize, reps: usize },
 	/// retrying acquisition found waiting while holding
 	HoldAndWait { tid: Tid, lid: Lid, frame: u32, held: Vec<Lid> },
+	/// retrying acquisition: after a failed try on `failed` the thread went on
+	/// to another acquisition attempt while still holding `held`
+	HoldAndSpin { tid: Tid, lid: Lid, failed: Lid, frame: u32, held: Vec<Lid> },
 	StepCap,
 	/// ThreadKey::get() would have handed out a key at a raw operation issued
 	/// while the thread holds locks
@@ -248,6 +251,9 @@ pub struct Inner {
 	pub table_version: u64,
 	/// per thread: which frame labels mark a retrying acquisition (for C09)
 	pub retry_frames: Vec<u32>,
+	/// per thread: the lock whose try failed inside a retrying frame while
+	/// the thread held others (cleared once everything has been let go)
+	pub failed_try: Vec<Option<Lid>>,
 	/// owned groups: for every lock id, the id of the owned group it lives in (or u32::MAX)
 	pub group_of: Vec<u32>,
 	pub trace_cap: usize,
@@ -338,6 +344,7 @@ impl Exec {
 				sched: None,
 				table_version: 0,
 				retry_frames: Vec::new(),
+				failed_try: Vec::new(),
 				group_of: vec![u32::MAX; nlocks],
 				trace_cap: 6_000,
 				ops_after_abort: 0,
@@ -363,6 +370,9 @@ impl Exec {
 		g.frames.push(Frame { id, tid, kind, label: label.to_string(), start, end: u32::MAX, parent });
 		g.cur_frame[tid as usize] = id;
 		g.frame_ops[tid as usize] = 0;
+		if let Some(f) = g.failed_try.get_mut(tid as usize) {
+			*f = None;
+		}
 		id
 	}
 
@@ -738,6 +748,28 @@ impl Exec {
 		if op.is_blocking() && matches!(fkind, Some(CallKind::AcquireTry)) {
 			g.notices.push(Notice::BlockingOpInTry { tid, lid, frame });
 		}
+		// retrying acquisition: once a try has failed, the next attempt of any
+		// kind comes only after everything taken so far has been let go
+		if op.is_acquire() && frame != 0 && g.retry_frames.contains(&frame) {
+			if let Some(failed) = g.failed_try.get(tid as usize).copied().flatten() {
+				let (g1, g2) = (g.group_of[lid as usize], g.group_of[failed as usize]);
+				let held: Vec<Lid> = g
+					.held_by(tid)
+					.into_iter()
+					.map(|(l, _)| l)
+					.filter(|l| {
+						let gl = g.group_of[*l as usize];
+						gl == u32::MAX || (gl != g1 && gl != g2)
+					})
+					.collect();
+				if held.is_empty() {
+					g.failed_try[tid as usize] = None;
+				} else {
+					g.notices.push(Notice::HoldAndSpin { tid, lid, failed, frame, held });
+					g.failed_try[tid as usize] = None;
+				}
+			}
+		}
 
 		// scheduling point (CONC)
 		let mut waited = false;
@@ -861,6 +893,12 @@ impl Exec {
 					Decision::Done(true)
 				} else {
 					g.push_event(tid, lid, op, Outcome::Fail);
+					if frame != 0 && g.retry_frames.contains(&frame) && !g.held_by(tid).is_empty() {
+						if g.failed_try.len() <= tid as usize {
+							g.failed_try.resize(tid as usize + 1, None);
+						}
+						g.failed_try[tid as usize] = Some(lid);
+					}
 					Decision::Done(false)
 				}
 			}
